@@ -309,7 +309,10 @@ func buildAPI(p *Pkg, c *Case) *apiState {
 				st.trFor(r).add("A:%s(%s)=%v", name, hx(tok), okTok)
 				var r2 *http.Request
 				if okTok {
-					r2 = r.WithContext(context.WithValue(r.Context(), ctxTag{}, name+":"+tok))
+					// the authenticator returns ITS OWN request: a clone carrying a context value and a
+					// header the incoming request does not have (the handler must see both)
+					r2 = r.Clone(context.WithValue(r.Context(), ctxTag{}, name+":"+tok))
+					r2.Header.Set("X-Verif-Authd", name+":"+tok)
 				}
 				return []reflect.Value{reflect.ValueOf(r2), reflect.ValueOf(okTok)}
 			})
@@ -328,6 +331,9 @@ func buildAPI(p *Pkg, c *Case) *apiState {
 				if hr != nil {
 					if tag, ok := hr.Context().Value(ctxTag{}).(string); ok {
 						tr.add("C:%s", hx(tag))
+						if got := hr.Header.Get("X-Verif-Authd"); got != tag {
+							tr.add("C:!handler-did-not-get-the-request-the-authenticator-returned(%s)", hx(got))
+						}
 					}
 				}
 				if !noParse {
